@@ -31,6 +31,18 @@ CHECKS = {
         note="Trusted: Lean kernel; axioms propext/Quot.sound/Classical.choice; Spec/ReplyGrammar.lean as the reading of RFC 5321 4.2; the "
              "hand-written model + correspondence harness; BufRead::read_line semantics; a never-completing open stream is C20's subject.",
         technique="Lean 4 proof (invariant over a parsing machine, streaming monotonicity) + exhaustive/sampled model-vs-code correspondence"),
+    "C16": dict(
+        category="proof",
+        text="Lean theorems over a model of Address (email_address's local-part/domain checks, the IP-literal and IDNA fallbacks, "
+             "the split at the last '@'): rejoin, accepted_safe (no control character, no '@' in the domain, space/angle brackets only in a "
+             "quoted local part), new_then_parse / parse_then_new, display_parse, command_lines_single_crlf, argv_safe, envelope_nonempty; "
+             "char::is_alphanumeric, domain_to_ascii and IpAddr parsing are hypotheses A1-A3, themselves checked on the real functions "
+             "(A1 over all code points). Correspondence: exhaustive strings over a 12-symbol alphabet up to length 4/5, structured "
+             "addresses around every length limit, Address::new, serde, Envelope, MAIL/RCPT lines and the real sendmail argv.",
+        design_ref="DESIGN.md 5 C16",
+        note="Trusted: Lean kernel; axioms propext/Quot.sound/Classical.choice; Spec/AddressSafe.lean; assumptions A1-A3 (hypotheses, validated "
+             "on the real functions every run) and A9 (Command argv); hand-written model + correspondence harness.",
+        technique="Lean 4 proof over a parameterised model + exhaustive/sampled model-vs-code correspondence"),
 }
 
 NOT_APPLICABLE = {
